@@ -267,6 +267,9 @@ pub struct Wire {
     /// per direction: highest emission index delivered so far
     max_delivered_idx: [Option<usize>; 2],
     pub monitors_on: bool,
+    /// a second incarnation of the 4-tuple appeared: the API history belongs
+    /// to the first one, so the API-level conservation checks stop
+    reincarnated: bool,
 }
 
 fn addr_pair(v6: bool) -> [IpAddr; 2] {
@@ -358,6 +361,7 @@ impl Wire {
             retx_seen: 0,
             max_delivered_idx: [None, None],
             monitors_on: true,
+            reincarnated: false,
         }
     }
 
@@ -453,6 +457,16 @@ impl Wire {
             }
         } else if s.flags.syn {
             kind = if s.flags.ack { Kind::SynAck } else { Kind::Syn };
+            if self.sides[x].syn_emitted && self.sides[x].iss != Some(s.seq) {
+                // a SYN / SYN-ACK with a different ISN opens a new incarnation
+                // of the 4-tuple (e.g. a late duplicate SYN accepted by the
+                // listener after the first connection was closed and reaped):
+                // sequence numbers, windows and advertised edges of the old
+                // incarnation say nothing about the new one
+                self.sides[x] = Side::default();
+                self.reincarnated = true;
+                self.mon.count("connection_incarnations_restarted", 1);
+            }
             let sx = &mut self.sides[x];
             if sx.syn_emitted && sx.iss == Some(s.seq) {
                 retx = true;
@@ -853,7 +867,7 @@ impl Wire {
         for dir in [Dir::C2S, Dir::S2C] {
             let sx = &self.sides[dir.idx()]; // sender of this direction
             let sy = &self.sides[dir.rev().idx()]; // receiver
-            if sx.iss.is_none() || sx.dead {
+            if sx.iss.is_none() || sx.dead || self.reincarnated {
                 continue;
             }
             let d = hist.d(dir);
